@@ -243,7 +243,11 @@ struct WL {
         void operator()(int t)
         {
             int n = gsim::prog_len(t);
-            for (int i = 0; i < n; i++) w->run_op(gsim::prog_op(t, i), t, i);
+            for (int i = 0; i < n; i++) {
+                gsim::Op op = gsim::prog_op(t, i);
+                if (op.c & 1) wl::run_in_unwind([&] { w->run_op(op, t, i); });
+                else w->run_op(op, t, i);
+            }
         }
     };
 
@@ -268,7 +272,8 @@ struct WL {
                                                    OP_ASYNC_VOID_THROW, OP_DETACH_THROW,
                                                    OP_DETACH_THROW};
                         bool thr = !strcmp(gsim::param("mode", "std"), "throw");
-                        gsim::prog_add(t, {pool[gsim::gen_int(thr ? 9 : 7)], gsim::gen_int(3) == 0 ? 1 : 0, 0, 0});
+                        gsim::prog_add(t, {pool[gsim::gen_int(thr ? 9 : 7)], gsim::gen_int(3) == 0 ? 1 : 0, 0,
+                                           (!thr && gsim::gen_int(12) == 0) ? 1 : 0});
                     } else {
                         gsim::prog_add(t, {gsim::gen_int(6) == 0 ? OP_LOAD : OP_READ,
                                            gsim::gen_int(4), gsim::gen_int(4), 0});
